@@ -549,6 +549,19 @@ def replay_sym(model, seed, inst, accept=lambda w: True):
                         "message": str(e)[:200]}
                 if accept(_r["what"]):
                     return _r
+            # the call returned: was the configuration one the property says must be refused?  (mirror of `unsup` in part_symmetric)
+            rank = len(shape)
+            if axis is None:
+                unsup = srank > 0
+            else:
+                k = axis % rank
+                keep = [s_ if j == k else 1 for j, s_ in enumerate(shape)]
+                unsup = rank == 1 or axis not in (0, -1, rank - 1) or shape[k] == 1 or list(ss) != keep
+            if unsup:
+                _r = {"shape": shape, "scale_shape": ss, "axis": axis, "qtype": qname,
+                      "what": f"unsupported configuration accepted: scale of shape {list(ss)} for axis {axis} of a base of shape {list(shape)} (declared axis {q.axis})"}
+                if accept(_r["what"]):
+                    return _r
             w = _native_inv(q, t, qname, axis, None)
             if w:
                 _r = {"shape": shape, "scale_shape": ss, "axis": axis, "qtype": qname, "what": w}
